@@ -652,3 +652,21 @@ Proof. vm_compute. split; [reflexivity|]. repeat (first [left; reflexivity|right
 
 Lemma fixed_witness_ok : well_owned true uaf_witness = true /\ ~ In SUAF (map fst (fst (run true uaf_witness))).
 Proof. vm_compute. split; [reflexivity|]. intuition discriminate. Qed.
+
+(* ------------------------------------------------------------------------------------ *)
+(* the hypotheses of the theorems are satisfiable: well-owned programs exist that share objects, let a child outlive
+   its parent, re-attach it, copy, build an error reply and hold parts of it beyond the reply *)
+Definition example_prog : list sop :=
+  [ONew 0; OSetName 0 [105; 113]; OSetAttr 0 k_from [97]; OSetAttr 0 k_to [98];
+   ONew 1; OSetName 1 [120]; OSetAttr 1 xmlns_key [110]; OAddChild 0 1 true;
+   OReplyErr 0 2 [99] [100] (Some [101]); OChild 2 0 3; OChild 3 1 4; OCopy 0 5;
+   ORelease 0; OToText 1; OWalk 1; ONew 6; OSetName 6 [121]; OAddChild 6 1 false;
+   ORelease 2; OToText 3; OToText 4; ORelease 3; OWalk 4; OToText 5; OToText 6].
+Example example_prog_well_owned : well_owned true example_prog = true.
+Proof. vm_compute. reflexivity. Qed.
+Example example_prog_runs : exists st, snd (run true example_prog) = Some st /\ slot_ids (st_slots st) <> [].
+Proof. vm_compute. eexists. split; [reflexivity|discriminate]. Qed.
+Example example_reaches : exists st, reaches true init_state [ONew 0; OClone 0 1] st.
+Proof.
+  eexists. eapply reach_cons; [vm_compute; reflexivity|]. eapply reach_cons; [vm_compute; reflexivity|]. apply reach_nil.
+Qed.
